@@ -10,6 +10,7 @@ import (
 )
 
 const c10Budget = 5_000_000
+const c10EnumBudget = 1_000_000
 
 // checkTerminates runs src on text with the step budget; exceeding it is the
 // violation C10 is about.
@@ -168,7 +169,7 @@ func c10Enumerate(t *testing.T, part string, depth int, stride int) {
 	if stride > 1 {
 		kind = fmt.Sprintf("every %dth program of the enumeration of all programs", stride)
 	}
-	st := NewStats("C10", part, fmt.Sprintf(kind+" `find all P` (and, up to depth 2, `P 'b'` and three subroutine-in-loop forms) with P from the nullable-material grammar (17 atoms incl. all anchors and their negations, 11 loop heads greedy/fewest/named, or-pairs) to nesting depth %d x all %d texts of length 1..3 over {a,b,\\n}; oracle: VM instructions per Run <= %d (largest observed count reported); non-trivial = program contains a loop whose body is nullable; programs are distinct by construction", depth, len(c10Texts()), c10Budget))
+	st := NewStats("C10", part, fmt.Sprintf(kind+" `find all P` (and, up to depth 2, `P 'b'` and three subroutine-in-loop forms) with P from the nullable-material grammar (17 atoms incl. all anchors and their negations, 11 loop heads greedy/fewest/named, or-pairs) to nesting depth %d x all %d texts of length 1..3 over {a,b,\\n}; oracle: VM instructions per Run <= %d (largest observed count reported); non-trivial = program contains a loop whose body is nullable; programs are distinct by construction", depth, len(c10Texts()), c10EnumBudget))
 	st.Exhaustive = stride == 1
 	defer st.Write()
 	texts := c10Texts()
@@ -195,12 +196,12 @@ func c10Enumerate(t *testing.T, part string, depth int, stride int) {
 		for _, text := range texts {
 			c := RunCase{Src: src, Text: text}
 			SetInflight(func() string { return jsonStr(Failure{Property: "C10", Kind: "terminates", Case: c}) })
-			res := RunSafe(v, text, c10Budget)
+			res := RunSafe(v, text, c10EnumBudget)
 			ClearInflight()
 			st.Eval()
 			st.Max("max_vm_steps", res.Steps)
 			if res.OverBudget {
-				Fail(t, Failure{Property: "C10", Kind: "terminates", What: fmt.Sprintf("%s on %q: Run executed more than %d VM instructions", src, text, c10Budget), Case: c, Sig: "step-budget-exceeded"})
+				Fail(t, Failure{Property: "C10", Kind: "terminates", What: fmt.Sprintf("%s on %q: Run executed more than %d VM instructions", src, text, c10EnumBudget), Case: c, Sig: "step-budget-exceeded"})
 			}
 			if res.Panic != nil {
 				Fail(t, Failure{Property: "C10", Kind: "terminates", What: fmt.Sprintf("%s on %q: Run panicked: %s", src, text, res.Panic.Sig()), Case: c, Sig: res.Panic.Sig()})
